@@ -232,6 +232,18 @@ def judge(targets, opts, wd, priors, perm, hash_other=None):
                     {'intervening_options': {k: more[k] for k in ('keep_peptide_nterm', 'keep_peptide_cterm',
                                                                   'non_shuffle_pattern', 'seed')},
                      'second': a2.get('exc')}))
+    # ... and neither must a call on OTHER targets: the decoys this run produced, submitted as the targets of an
+    # intervening run in the same interpreter (state shared between DecoyFasta objects -- a collision pool, a cache
+    # -- would make the original run redraw)
+    th = dict(targets)
+    others = [(f'U{j}|{h}', q) for j, (h, q) in enumerate(parse_out(a['bytes'])) if h not in th]
+    others = list({q: (h, q) for h, q in others}.values())
+    if others:
+        y = run_decoy(others, opts, wd, 'y', priors[1])
+        a3 = run_decoy(targets, opts, wd, 'a3', priors[0])
+        if y['ok'] and (not a3['ok'] or a3['bytes'] != a['bytes']):
+            out.append(('reproducible-history', 'reproducible-history:other-targets',
+                        {'intervening_targets': 'the decoys of the first run', 'second': a3.get('exc')}))
     permuted = [targets[i] for i in perm]
     c = run_decoy(permuted, opts, wd, 'c', priors[0])
     dups = len({s for _, s in targets}) < len(targets)
@@ -304,7 +316,7 @@ def run_case(seed, task, tier):
         out['invalid_reason'] = a.get('exc')
         out['executions'] = 1
         return out
-    out['executions'] = 1 if opts['seed'] is None else (6 if hash_other is not None else 5)
+    out['executions'] = 1 if opts['seed'] is None else (8 if hash_other is not None else 7)
     out['faults']['rng_state_perturbed'] = 0 if opts['seed'] is None else 1
     out['faults']['arrival_order_permuted'] = 0 if opts['seed'] is None else 1
     out['faults']['hashseed_changed'] = 1 if hash_other is not None else 0
